@@ -1,4 +1,4 @@
-import FparserModel.Proofs.SplitlineSrm2Main
+import FparserModel.Proofs.SplitlineSrm2Found
 /-!
 # `string_replace_map` ∘ `StringReplaceDict.__call__` : the round trip, and what the tokenised
 # text hides  — serves C02, C08
@@ -30,9 +30,9 @@ ORIGINAL text:
 
 * `Free (foldOutsideLiterals lower l)` : the line (as handed over by `splitquote`) does not contain
   the four characters `F2PY` consecutively — stronger than `NoMagic` (`Free_NoMagic`);
-* `FoundsOK (expConsts (phase1Text …))` : no exponent constant found by the second loop ends in
-  `_`, `F`, `F2` or `F2P` (and each is `Free`, which follows from the first hypothesis in all
-  cases we know but is not proved).
+* `FoundsEndOK (expConsts (phase1Text …))` : no exponent constant found by the second loop (in the
+  text left by the first loop) ends in `_`, `F`, `F2` or `F2P` (`badEnd`).  (That each such constant
+  is a substring of the line, hence `Free`, is proved: `founds_free`.)
 
 Both are shown necessary-in-kind by the counter-examples.  Special cases with an EXACT equality:
 `srm_strings_roundtrip` (first loop alone), `srm_roundtrip_flat` (no exponent constant, every
@@ -84,24 +84,30 @@ def roundTripL (l : Str) (lower : Bool) : Option Str :=
     replaced groups) and up to the case folding of `splitquote(lower=True)` outside literals. -/
 theorem srm_roundtrip_partial (l : Str) (lower : Bool)
     (hF : Free (foldOutsideLiterals lower l))
-    (hE : FoundsOK (expConsts (phase1Text discipline l lower))) :
+    (hE : FoundsEndOK (expConsts (phase1Text discipline l lower))) :
     ∃ r, stringReplaceMap l lower = some r ∧
       squeeze (applyMap r.map r.text) = squeeze (foldOutsideLiterals lower l) :=
-  srm_roundtrip' discipline rfl rfl rfl l lower hF hE
+  srm_roundtrip'' discipline rfl rfl rfl l lower hF hE
+
+/-- every exponent constant found by the second loop is a substring of the line (a match cannot
+    overlap an inserted string key), hence `Free` — why `FoundsEndOK` needs no `Free` clause -/
+theorem srm_founds_free (l : Str) (lower : Bool) (hF : Free (foldOutsideLiterals lower l)) :
+    ∀ f ∈ expConsts (phase1Text discipline l lower), Free f :=
+  founds_free discipline rfl l lower hF
 
 /-- the same for any discipline that looks up trimmed items, keeps a separate map for groups and
     skips foreign placeholders (i.e. has the three fixes of /repo HEAD) -/
 theorem srm_roundtrip_partial_with (d : Discipline) (hd : d.lookupTrimmed = true)
     (hs : d.separateParenMap = true) (hf : d.foreignKeyRaises = false) (l : Str) (lower : Bool)
     (hF : Free (foldOutsideLiterals lower l))
-    (hE : FoundsOK (expConsts (phase1Text d l lower))) :
+    (hE : FoundsEndOK (expConsts (phase1Text d l lower))) :
     ∃ r, stringReplaceMapWith d l lower = some r ∧
       squeeze (applyMap r.map r.text) = squeeze (foldOutsideLiterals lower l) :=
-  srm_roundtrip' d hd hs hf l lower hF hE
+  srm_roundtrip'' d hd hs hf l lower hF hE
 
 /-- `lower = false` (the way every fparser2 matcher calls it): the line itself comes back -/
 theorem srm_roundtrip_partial_nolower (l : Str) (hF : Free l)
-    (hE : FoundsOK (expConsts (phase1Text discipline l false))) :
+    (hE : FoundsEndOK (expConsts (phase1Text discipline l false))) :
     ∃ r, stringReplaceMap l false = some r ∧ squeeze (applyMap r.map r.text) = squeeze l := by
   have := srm_roundtrip_partial l false (by rw [foldOutsideLiterals_false]; exact hF) hE
   rwa [foldOutsideLiterals_false] at this
@@ -133,7 +139,7 @@ theorem srm_strings_roundtrip (l : Str) (lower : Bool)
 
 -- non-vacuity: a line with capital F's, a literal, nested groups, exponent constants with kinds
 example : Free (foldOutsideLiterals false "IF (F(a+b, (c)) > 1.0E-3_dp) X = 'It''s' // G( 2d0 )".toList) ∧
-    FoundsOK (expConsts (phase1Text discipline
+    FoundsEndOK (expConsts (phase1Text discipline
       "IF (F(a+b, (c)) > 1.0E-3_dp) X = 'It''s' // G( 2d0 )".toList false)) := by decide +kernel
 /-- the blanks in `G( 2d0 )` survive here: the stripped interior is a placeholder (`\w*`), so the
     group is not replaced; those in `H( i+1 )` do not -/
@@ -144,7 +150,7 @@ example : expConsts (phase1Text discipline "x = f(a+b, 'It''s')".toList true) = 
     placeholders are inserted): the hypotheses hold although the line itself is not `NoMagic` -/
 example : ¬ NoMagic "X = F2PY_EXPR_TUPLE_1(I+1) // 'a b'".toList ∧
     Free (foldOutsideLiterals true "X = F2PY_EXPR_TUPLE_1(I+1) // 'a b'".toList) ∧
-    FoundsOK (expConsts (phase1Text discipline "X = F2PY_EXPR_TUPLE_1(I+1) // 'a b'".toList true)) ∧
+    FoundsEndOK (expConsts (phase1Text discipline "X = F2PY_EXPR_TUPLE_1(I+1) // 'a b'".toList true)) ∧
     roundTripL "X = F2PY_EXPR_TUPLE_1(I+1) // 'a b'".toList true
       = some "x = f2py_expr_tuple_1(i+1) // 'a b'".toList := by decide +kernel
 example : expConsts (phase1Text discipline "CALL S(i)".toList false) = [] ∧
@@ -174,7 +180,7 @@ theorem srm_roundtrip_fails_prefix :
     `str.replace` of `1e5_F` eats the head of the already inserted `F2PY_REAL_CONSTANT_1_`. -/
 theorem srm_roundtrip_fails_straddle_F :
     Free "2e3 + 1e5_2e3 + 1e5_F".toList ∧
-    ¬ FoundsOK (expConsts (phase1Text discipline "2e3 + 1e5_2e3 + 1e5_F".toList false)) ∧
+    ¬ FoundsEndOK (expConsts (phase1Text discipline "2e3 + 1e5_2e3 + 1e5_F".toList false)) ∧
     roundTripL "2e3 + 1e5_2e3 + 1e5_F".toList false
       = some "2e3 + 1e5_F2PY_REAL_CONSTANT_1_ + 1e5_F".toList := by
   decide +kernel
@@ -183,7 +189,7 @@ theorem srm_roundtrip_fails_straddle_F :
     string key that phase 2 re-used outside quotes; fails with `lower=True` as well. -/
 theorem srm_roundtrip_fails_straddle_us :
     NoF "'1.e5' + 1.e5 + 1e5_a1.e5 + 1e5_a_".toList ∧
-    ¬ FoundsOK (expConsts (phase1Text discipline "'1.e5' + 1.e5 + 1e5_a1.e5 + 1e5_a_".toList false)) ∧
+    ¬ FoundsEndOK (expConsts (phase1Text discipline "'1.e5' + 1.e5 + 1e5_a1.e5 + 1e5_a_".toList false)) ∧
     roundTripL "'1.e5' + 1.e5 + 1e5_a1.e5 + 1e5_a_".toList false
       = some "'1.e5' + 1.e5 + 1e5_a_F2PY_STRING_CONSTANT_1_ + 1e5_a_".toList ∧
     roundTripL "'1.e5' + 1.e5 + 1e5_a1.e5 + 1e5_a_".toList true
@@ -303,5 +309,7 @@ open Fp.Splitline in
 #print axioms srm_hides_groups
 open Fp.Splitline in
 #print axioms srm_hides_literals
+open Fp.Splitline in
+#print axioms srm_founds_free
 open Fp.Splitline in
 #print axioms Free_NoMagic
